@@ -96,9 +96,9 @@ theorem reaches_clause_tie (c : V → M V) (all front ts : List Tok) (arrow : To
   obtain ⟨pre, hsplit, hleaves, _⟩ := id hcons
   have hne : pre ≠ [] := by
     intro hnil
-    have := congrArg List.length hsplit
-    simp [hnil] at this
-    omega
+    rw [hnil, List.nil_append] at hsplit
+    rw [hsplit] at hpos
+    exact Nat.lt_irrefl _ hpos
   have hlastL : PT.lastL cs = some (leaf (pre.getLast hne)) := by
     rw [lastL_eq_leaves, hleaves, List.getLast?_map, List.getLast?_eq_some_getLast hne]; rfl
   have hnode_last : ∀ t, PT.lastL cs = some t → (PT.rule "reaches" (leaf (arrow, front.length) :: cs)).last = some t := by
